@@ -478,6 +478,11 @@ func (e *escaper) escapeBranch(c context, n *parse.BranchNode, nodeName string) 
 		// (A loop body that is nothing but an attribute name is accepted: the name it
 		// repeats is not treated as split, unless the name decides how other attributes
 		// or the content of the element are treated.)
+		if reflect.DeepEqual(c0, c) {
+			// The body ends exactly where it starts: analysing it once more from there gives
+			// the same result (and would take time that doubles with every level of nesting).
+			return join(c0, e.escapeList(c, n.ElseList), n, nodeName)
+		}
 		r := c0
 		if name := bareName(n.List); name != "" && name != "rel" && name != "type" {
 			r.nameOpen, r.tagNameOpen = false, false
